@@ -420,10 +420,14 @@ def extract_function(fn):
     out = []
     out.append("/* ---- extracted from %s:%d-%d  sha256(body)=%s ---- */" % (fn["file"], line0, line1, sha[:16]))
     out.append("#undef VERIF_RV\n#define VERIF_RV %s" % rv)
+    for k, v in fn.get("typedefs", {}).items():
+        out.append("#define %s %s" % (k, v))
     out.append(csig)
     if fn.get("contract"):
         out.append(fn["contract"].strip())
     out.append(body)
+    for k in fn.get("typedefs", {}):
+        out.append("#undef %s" % k)
     ex = Extracted()
     ex.text = "\n".join(out) + "\n"
     ex.info = {"name": fn["name"], "file": fn["file"], "lines": [line0, line1], "body_sha256": sha,
@@ -457,6 +461,28 @@ def extract_const(c):
         text = "#define %s (%s)\n" % (c["name"], val)
     line = stripped.count("\n", 0, ms[0].start()) + 1
     return text, {"name": c["name"], "file": c["file"], "line": line, "value": val}
+
+
+def extract_const_block(c):
+    """c: dict(file, pattern (regex with groups: name, value), min_count, prefix) -> #define for every match"""
+    raw, stripped = read_repo(c["file"])
+    ms = list(re.finditer(c["pattern"], stripped))
+    if len(ms) < c.get("min_count", 1):
+        raise ExtractionBroken("constant block /%s/ matched %d times in %s, expected >= %d"
+                               % (c["pattern"], len(ms), c["file"], c.get("min_count", 1)))
+    text = []
+    infos = []
+    for m in ms:
+        name = c.get("prefix", "") + m.group("name")
+        val = _rewrite_named_casts(m.group("value").strip(), [])
+        val = re.sub(r"\b([A-Za-z_]\w*)::(?=[A-Za-z_])", r"\1_", val)
+        ty = m.groupdict().get("type")
+        if ty:
+            text.append("#define %s ((%s)(%s))" % (name, ty, val))
+        else:
+            text.append("#define %s (%s)" % (name, val))
+        infos.append({"name": name, "file": c["file"], "line": stripped.count("\n", 0, m.start()) + 1, "value": val})
+    return "\n".join(text) + "\n", infos
 
 
 def extract_region(r):
